@@ -39,7 +39,7 @@ ASSUMPTIONS = [
 ]
 PROBES = ["stencil mask", "samples begin with a magic number", "run under settings.STRICT", "page with shifted MediaBox or /Rotate", "one ImageWriter for two documents", "ASCII85 inline data contains EI + white space", "two inline images with the same data bytes", "dct data continues behind the EOI marker", "CR after ID and data starting with LF", "dct behind further filters", "same XObject drawn twice", "inline image ending at the ASCII85 marker", "inline image", "xobject image", "gray8", "rgb8", "1bit", "dct", "filter chain", "unfiltered", "row padding needed", "boundary placed in inline markers", "contents split after image", "inline data contains EI", "preexisting export name", "two images same name", "bmp exported", "jpg exported"]
 TIERS = {
-    "quick": {"batches": 16, "runs": 450, "budget_s": 50},
+    "quick": {"batches": 16, "runs": 450, "budget_s": 90},
     "thorough": {"batches": 128, "runs": 500, "budget_s": 1200},
 }
 DETERMINISM_SLICE = 4
